@@ -95,6 +95,11 @@ def check(rep, spec):
 
     f32 = spec.get("dtype") == "float32"  # the declared input dtype of the transform; far from the origin its resolution is coarse
     pts = np.array(spec["points"], dtype=np.float32 if f32 else np.float64)
+    cloud_arg, soma_arg = pts.copy(), (None if spec["soma"] is None else list(spec["soma"]))
+    if spec.get("cloud"):
+        # the container / dtype of the cloud and the form of the soma are part of the input: the VALUES are spec["points"] / spec["soma"] (all of them exactly
+        # representable in every dtype they are handed over in), the clauses speak about these values as real numbers
+        cloud_arg, soma_arg = make_cloud(spec["points"], spec["cloud"]), make_soma(spec["soma"], spec.get("soma_form"))
     soma, bf, K, ex, sort, cls = spec["soma"], spec["bf"], spec["furcations"], spec["exclude_soma"], spec["sort"], spec["cls"]
     carrier = "PointsToCuntzMST.__call__"
     kw = {}
@@ -110,7 +115,7 @@ def check(rep, spec):
         if spec.get("warmup"):
             # a transform object is reusable: what it built for an earlier (tiny) cloud must not influence this call
             tr(np.array(spec["warmup"], dtype=np.float64))
-        t = tr(pts.copy(), soma=None if soma is None else list(soma))
+        t = tr(cloud_arg, soma=soma_arg)
     except Exception as e:
         rep(carrier, "operation-raises", spec, f"{type(e).__name__}: {e}", "a tree")
         return None
@@ -281,6 +286,55 @@ def posed_cloud(rng, shape, magnitude, with_soma):
     return [[f32(v) for v in p] for p in pts], soma
 
 
+CLOUDS = ("float64", "float32", "int64", "int32", "uint16", "tuples")  # numpy dtype of the (n, 3) array | a python list of 3-tuples
+SOMA_FORMS = ("list", "tuple", "ndarray-float64", "ndarray-float32", "list-of-ints", "ndarray-int64")
+
+
+def make_cloud(points, kind):
+    if kind == "tuples":
+        return [tuple(float(v) for v in p) for p in points]
+    dt = np.dtype(kind)
+    arr = np.array(points, dtype=np.float64).astype(dt)
+    assert (arr.astype(np.float64) == np.array(points, dtype=np.float64)).all(), "cloud values are not representable in the dtype"
+    return arr
+
+
+def make_soma(soma, form):
+    if soma is None:
+        return None
+    if form in ("list-of-ints", "ndarray-int64"):
+        assert all(float(v).is_integer() for v in soma)
+        ints = [int(v) for v in soma]
+        return ints if form == "list-of-ints" else np.array(ints, dtype=np.int64)
+    vals = [float(v) for v in soma]
+    if form == "tuple":
+        return tuple(vals)
+    if form == "ndarray-float64":
+        return np.array(vals, dtype=np.float64)
+    if form == "ndarray-float32":
+        out = np.array(vals, dtype=np.float32)
+        assert out.astype(np.float64).tolist() == vals, "soma values are not float32 numbers"
+        return out
+    return vals
+
+
+def typed_input(rng, cloud, soma_form, fractional):
+    """a small cloud whose values fit the container `cloud` (integer dtypes: distinct voxel positions, `np.argwhere` style; float kinds: multiples of 1/64) and a soma
+    (None | whole numbers | numbers with a fractional part k/64 - a sub-voxel centre of mass) in the box of the cloud.  Returns (points, soma)."""
+    n = rng.randint(3, 10)
+    integer = cloud in ("int64", "int32", "uint16")
+    lo = [rng.choice((0, 7, 120) if cloud == "uint16" else (0, 7, 120, -60)) for _ in range(3)]
+    if integer:
+        cells = rng.sample([(i, j, k) for i in range(9) for j in range(9) for k in range(6)], n)
+        pts = [[float(lo[c] + p[c]) for c in range(3)] for p in cells]
+    else:
+        pts = [[lo[c] + rng.randrange(0, 9 * 64) / 64.0 for c in range(3)] for _ in range(n)]
+    soma = None
+    if soma_form is not None:
+        soma = [float(lo[c] + rng.randrange(0, 8)) + (rng.randrange(3, 62) / 64.0 if fractional else 0.0) for c in range(3)]
+    return pts, soma
+
+
 CONFIGS = [  # (cls, bf, K, exclude_soma)
     ("mst", 0.0, -1, True), ("cuntz", 0.0, -1, False), ("cuntz", 0.4, 2, True), ("cuntz", 0.4, 2, False), ("cuntz", 0.2, -1, True), ("cuntz", 1.0, 1, False),
     ("cuntz", 1.0, 1, True), ("mst", 0.0, 2, True), ("mst", 0.0, 2, False), ("cuntz", 0.7, 3, False), ("mst", 0.0, 1, False), ("cuntz", 0.05, 3, True),
@@ -375,13 +429,33 @@ def run(ctx):
                         if gap is not None and gap <= 1e-9:
                             ties += 1
                         ctx.case("posed-cloud", dict(kind=shape, away=mag, n=len(pts), first=list(pts[0]), cfg=list(cfg), soma=soma is not None, sort=sort))
+    # dtypes / containers: the cloud as float64 | float32 | int64 | int32 | uint16 array or a list of tuples, the soma as list | tuple | float64 / float32 / int64 array | list of python
+    # ints, with and without a fractional part (a voxel cloud with a sub-voxel centre of mass) - the tree must show the VALUES that were handed over, whatever they were stored in.
+    # Not included (the unchanged library fails there, see docs/w4/g-c17.md): an unsigned cloud and a list of tuples WITHOUT a soma.
+    for _ in range(2 if quick else 10):
+        for cloud in CLOUDS:
+            for form in (None,) + SOMA_FORMS:
+                if form is None and cloud in ("uint16", "tuples"):
+                    continue
+                for fractional in ((False,) if form in (None, "list-of-ints", "ndarray-int64") else (True, False)):
+                    pts, soma = typed_input(rng, cloud, form, fractional)
+                    for _c in range(2):
+                        cfg, sort = combos[idx % len(combos)]
+                        idx += 1
+                        sp = mk_spec(pts, soma, cfg, sort)
+                        sp.update(cloud=cloud, soma_form=form, exact32=True)  # every value is a float32 number: the tree shows it exactly (a point AT the soma is a node of its own)
+                        gap = check(rep, sp)
+                        if gap is not None and gap <= 1e-9:
+                            ties += 1
+                        ctx.case("typed-input", dict(cloud=cloud, soma=form, fractional=fractional, n=len(pts), first=list(pts[0]), cfg=list(cfg), sort=sort))
     if ties:
         ctx.notes.append(f"{ties} cases met a near tie (< 1e-9) in the greedy simulation; their parent tables were not compared")
     ctx.rule(f"every subset of 2..{kmax} points of a generically perturbed 3x3x2 grid (rotating first point, soma given for a third, sort on/off alternating) with the plain-MST "
              f"configuration and one rotating configuration out of {len(CONFIGS)} (class, bf in 0..1, branching limit in -1,1,2,3, root exempt or not); {nrand} seeded random clouds of 2..{nmaxpts} "
              "points x 4-5 configurations, every second one on a transform object that was first applied to a 2-point cloud; float32 clouds of 4..24 points offset by ~1e3 from the origin; small clouds built with non-default column names, sort on and off; posed clouds: "
              f"kinds {', '.join(SHAPES)} (near = 1e-3 .. 1e-1 apart) x distance from the origin {', '.join(str(int(m)) for m in POSES)} x soma given / not, rotating through all {len(combos)} combinations of "
-             "class x bf (0, 0.05, 0.4, 1) x limit (-1, 1, 2, 3) x root exemption x sorting, float32-representable coordinates computed in float64. Non-trivial = every case (>= 2 points).", exhaustive=False)
+             "class x bf (0, 0.05, 0.4, 1) x limit (-1, 1, 2, 3) x root exemption x sorting, float32-representable coordinates computed in float64; typed inputs: cloud as "
+             f"{' | '.join(CLOUDS)} x soma as none | {' | '.join(SOMA_FORMS)} x soma with / without a fractional part (integer clouds = distinct voxel positions), rotating through the same option combinations. Non-trivial = every case (>= 2 points).", exhaustive=False)
 
 
 def replay(spec):
